@@ -149,6 +149,9 @@ def make_source(spec):
         if c == "ClipModel":
             return darsia.ClipModel(**{"min value": 0.1, "max value": 0.9})
         raise HarnessError(c)
+    if k == "dates":
+        tz = datetime.timezone(datetime.timedelta(hours=spec["tz"])) if spec.get("tz") is not None else None
+        return [DT0.replace(tzinfo=tz) + datetime.timedelta(minutes=7 * i) for i in range(spec["n"])]
     if k == "list":
         return list(spec["vals"])
     if k == "tuple":
@@ -166,6 +169,9 @@ def make_image(spec):
     a = np.round(g.uniform(0.05, 1.0, size=full) * 128) / 128
     if spec.get("roll"):
         a = np.roll(a, spec["roll"], axis=0)  # same multiset of values: equal total mass
+    if spec.get("zeros"):
+        a = np.ones_like(a)
+        a.ravel()[[1, a.size - 2]] = 0.0  # a weight image with isolated vanishing entries
     if spec.get("nearly"):
         a = a * (1.0 + 2.0 ** -22)  # mass defect of 2.4e-7 relative: inside the library's tolerance, far beyond round-off
     dt = spec.get("dtype", "float64")
@@ -186,14 +192,15 @@ def make_image(spec):
     if spec.get("name"):
         kw["name"] = spec["name"]
     tm = spec.get("time", "none")
+    tz = datetime.timezone(datetime.timedelta(hours=2)) if spec.get("tz") else None
     if T:
         if tm == "date":
-            kw["date"] = [DT0 + datetime.timedelta(seconds=60 * i) for i in range(T)]  # before the singles (>= 1000 s)
+            kw["date"] = [DT0.replace(tzinfo=tz) + datetime.timedelta(seconds=60 * i) for i in range(T)]  # before the singles (>= 1000 s)
         else:
             kw["time"] = [float(10 * i) for i in range(T)]
     else:
         if tm == "date":
-            kw["date"] = DT0 + datetime.timedelta(seconds=spec.get("date_offset", 0))
+            kw["date"] = DT0.replace(tzinfo=tz) + datetime.timedelta(seconds=spec.get("date_offset", 0))
         elif tm == "time":
             kw["time"] = float(spec.get("date_offset", 0))
     cls = spec.get("cls", "Image")
@@ -361,6 +368,7 @@ def _w1(pool, op):
 
 def _ctor(pool, op):
     arr = pool[op["arr"]]
+    sdim = arr.ndim
     kw = {}
     if op.get("dims"):
         kw["dimensions"] = pool[op["dims"]]
@@ -371,12 +379,15 @@ def _ctor(pool, op):
         kw["origin"] = pool[op["origin"]]
     if op.get("meta"):
         kw.update(pool[op["meta"]])
+    if op.get("dates"):
+        kw.update(date=pool[op["dates"]], series=True)
+        arr = np.stack([arr] * len(pool[op["dates"]]), axis=-1)
     with warnings.catch_warnings():
         warnings.simplefilter("ignore")
         if op["cls"] == "Image":
-            return darsia.Image(arr, space_dim=arr.ndim if not op.get("space_dim") else op["space_dim"], scalar=True, **kw)
+            return darsia.Image(arr, space_dim=sdim if not op.get("space_dim") else op["space_dim"], scalar=True, **kw)
         if op["cls"] == "ScalarImage":
-            return darsia.ScalarImage(arr, space_dim=arr.ndim, **kw)
+            return darsia.ScalarImage(arr, space_dim=sdim, **kw)
         if op["cls"] == "OpticalImage":
             rgb = np.stack([arr, arr, arr], axis=-1)
             return darsia.OpticalImage(rgb, color_space="RGB", **kw)
@@ -432,7 +443,7 @@ REGISTRY = {
     "bounding_box": (lambda p, o: darsia.bounding_box(darsia.make_voxel(p[o["pts"]]), padding=o.get("pad", 0), max_size=p[o["max"]] if o.get("max") else None), ("pts", "max")),
     "bounding_box_inverse": (lambda p, o: darsia.bounding_box_inverse(p[o["box"]]), ("box",)),
     "random_patches": (lambda p, o: darsia.random_patches(p[o["mask"]], o["w"], o["n"]), ("mask",)),
-    "ctor": (_ctor, ("arr", "dims", "origin", "meta", "nv", "voxel_size", "img")),
+    "ctor": (_ctor, ("arr", "dims", "origin", "meta", "nv", "voxel_size", "img", "dates")),
 }
 
 DEP_SITES = [("darsia.image.arithmetics", "cv2", "resize"), ("darsia.image.arithmetics", "np", "multiply"),
@@ -609,6 +620,9 @@ class C17Engine(Engine):
         sources["o_het"] = {"kind": "object", "cls": "HeterogeneousLinearModel", "shape": base_shape, "id": r.randint(0, 99)}
         sources["o_clip"] = {"kind": "object", "cls": "ClipModel"}
         sources["o_clipid"] = {"kind": "object", "cls": "ScalingModel"}  # a preprocess routine that hands its input back
+        sources["dates"] = {"kind": "dates", "n": cfg.randint(2, 3), "tz": cfg.choice([None, None, 1, -5])}
+        sources["wzero"] = {"kind": "image", "cls": "Image", "shape": base_shape, "dtype": "float64", "id": r.randint(0, 9999),
+                            "dims": [float(base_shape[0]), 2.0 * base_shape[1]], "time": "none", "zeros": 2}
         sources["pts"] = {"kind": "list", "vals": [[1, 2], [3, 1], [2, 4]]}
         sources["max_size"] = {"kind": "list", "vals": [6, 6]}
         sources["box"] = {"kind": "tuple", "vals": []}  # replaced at build time by a tuple of slices
@@ -617,6 +631,10 @@ class C17Engine(Engine):
         sources["w1opts"] = {"kind": "options", "vals": {"num_iter": 2, "linear_solver": ls, "formulation": "pressure",
                                                          "amg_options": {"max_coarse": 2},
                                                          "aa_depth": cfg.choice([0, 1])}}
+        if cfg.random() < 0.25:
+            for sp in sources.values():
+                if sp["kind"] == "image":
+                    sp["tz"] = True  # time-zone aware time stamps (what imread produces from %z metadata)
         for n, sp in sources.items():
             if sp["kind"] == "image":
                 desc[n] = self._desc(sp)
@@ -864,8 +882,8 @@ class C17Engine(Engine):
                 op["preprocess"] = "o_clipid"
             if m in ("newton", "bregman"):
                 op["options"] = "w1opts"
-                if r.random() < 0.3:
-                    op["weight"] = "wfam"
+                if r.random() < 0.4:
+                    op["weight"] = r.choice(["wfam", "wzero"])
                 if sources["w1opts"]["vals"]["linear_solver"] in ("amg", "cg") and r.random() < 0.4:
                     # fault: the k-th multigrid set-up fails after it has drawn random vectors (k >= 1: inside the
                     # iteration, where the library handles the failure and still returns a result)
@@ -914,7 +932,13 @@ class C17Engine(Engine):
                     op["height"] = 5.0
                 return op
             if w in ("Image", "ScalarImage"):
-                how = r.choice(["dims", "dims+height", "dims+width", "meta", "origin"])
+                how = r.choice(["dims", "dims+height", "dims+width", "meta", "origin", "dates"])
+                if how == "dates":
+                    op["dims"] = "dims2"
+                    op["dates"] = "dates"
+                    desc[out] = {"t": "image", "cls": w, "dim": 2, "shape": list(base_shape), "chan": 0, "series": sources["dates"]["n"],
+                                 "dtype": sources["arr2"]["dtype"], "time": "date", "fam": False}
+                    return op
                 if how.startswith("dims"):
                     op["dims"] = "dims2"
                     if how == "dims+height":
@@ -1085,7 +1109,7 @@ class C17Engine(Engine):
             return "distance-" + op["method"]
         if f == "ctor":
             extra = "+".join(("extent" if k in ("height", "width", "depth") else k)
-                             for k in ("dims", "height", "width", "origin", "meta") if op.get(k) is not None)
+                             for k in ("dims", "height", "width", "origin", "meta", "dates") if op.get(k) is not None)
             return f"ctor-{'image' if op['cls'] in ('Image', 'ScalarImage', 'OpticalImage') else op['cls']}({extra})"
         if f == "model":
             return "model-" + op["model"]
